@@ -26,7 +26,8 @@ HARNESS_ERROR = 3
 class Kernel:
     def __init__(self, name, fn, shapes, *, desc='', native=True, encodes=(), bounds='',
                  outside='', assumptions=(), max_paths=None, time_limit=None,
-                 query_timeout_ms=30000, witnesses=2, setup=None, concrete_fallback=None, prescribe=()):
+                 query_timeout_ms=30000, witnesses=2, setup=None, concrete_fallback=None, prescribe=(),
+                 split_depth=None):
         self.name = name
         self.fn = fn                  # fn(shape) -> None, uses symx.engine()
         self.shapes = shapes          # callable(tier) -> list of JSON-able shapes
@@ -43,6 +44,7 @@ class Kernel:
         self.setup = setup
         self.concrete_fallback = concrete_fallback
         self.prescribe = set(prescribe)   # modelled hashes whose model values the native replay reuses
+        self.split_depth = split_depth    # spread one shape over workers by its first k decisions
 
 
 # ---------------------------------------------------------------------------------------------
@@ -85,7 +87,7 @@ def worker(job):
     '''Runs one (kernel, shape) symbolically.  Executed in a fresh forked process.'''
     prop, kname, shape, opts = job
     t0 = time.time()
-    out = {'kernel': kname, 'shape': shape, 'error': None}
+    out = {'kernel': kname, 'shape': shape, 'error': None, 'forced': bool(opts.get('forced'))}
     try:
         from vlib import shims, symx
         shims.install()
@@ -109,8 +111,17 @@ def worker(job):
                 if w is not None:
                     obs = [(lbl, symx.concretize(v, eng.model)) for lbl, v in eng.path_local.get('obs', [])]
                     eng.witnesses.append({'inputs': w, 'obs': _jsonable(obs)})
-        st = eng.explore(lambda: k.fn(shape), on_path=on_path)
+        if opts.get('frontier'):
+            eng.split_depth = opts['frontier']
+        if opts.get('forced'):
+            for pre in opts['forced']:
+                st = eng.explore(lambda: k.fn(shape), on_path=on_path, forced=pre)
+                if eng.truncated:
+                    break
+        else:
+            st = eng.explore(lambda: k.fn(shape), on_path=on_path)
         _stop_coverage(tool)
+        out['frontier'] = eng.frontier
         out['stats'] = _jsonable(st.as_dict())
         out['truncated'] = eng.truncated
         out['functions'] = sorted(found)
@@ -292,8 +303,19 @@ def main(prop, argv=None):
             jobs.append((prop, k.name, shape, {'max_paths': args.max_paths}))
     ctx = mp.get_context('fork')
     results = []
+    kmap0 = {k.name: k for k in kernels}
+    jobs = [(p, kn, sh, dict(o, frontier=kmap0[kn].split_depth) if kmap0[kn].split_depth else o)
+            for p, kn, sh, o in jobs]
     with ctx.Pool(min(args.jobs, max(1, len(jobs))), maxtasksperchild=1) as pool:
+        second = []
         for r in pool.imap_unordered(worker, jobs, chunksize=1):
+            results.append(r)
+            fr = r.get('frontier') or []
+            nchunks = min(len(fr), 8)
+            for c in range(nchunks):
+                second.append((prop, r['kernel'], r['shape'],
+                               {'max_paths': args.max_paths, 'forced': fr[c::nchunks]}))
+        for r in pool.imap_unordered(worker, second, chunksize=1):
             results.append(r)
     results.sort(key=lambda r: (r['kernel'], json.dumps(r['shape'], sort_keys=True)))
     if args.verbose:
@@ -314,7 +336,7 @@ def main(prop, argv=None):
             'shapes': 0, 'paths': 0, 'complete': 0, 'forked_paths': 0, 'aborted': {}, 'obligations': 0,
             'discharged': 0, 'inconclusive': 0, 'queries': 0, 'solver_s': 0.0, 'wall_s': 0.0,
             'truncated_shapes': 0, 'decisions': 0})
-        pk['shapes'] += 1
+        pk['shapes'] += 0 if r.get('forced') else 1
         pk['wall_s'] = round(pk['wall_s'] + r['wall_s'], 3)
         if r['error']:
             continue
